@@ -6,13 +6,12 @@
 (* OptExpr; the alphabets are exported for the implementation harness,     *)
 (* which enumerates exactly the same files.                                 *)
 (***************************************************************************)
-EXTENDS OptAlphabet, Json, IOUtils, SequencesExt
+EXTENDS OptAlphabet, Json, IOUtils
 CONSTANTS MaxLen, Depth
 VARIABLES idx, file, pst
 vars == <<idx, file, pst>>
 
-BigA == Big(Depth)
-BigSeq == SetToSeq(BigA \ Core)
+BigSeq == BigSeqOf(Depth)
 
 \* idx > 0: the one-statement file <<BigSeq[idx]>>; idx = 0: the files over Core (one initial state per big statement so
 \* that all TLC workers share the space)
